@@ -49,7 +49,14 @@ func worlds() []*wm.World {
 		{Kind: "Deployment", NS: "ns1", Name: LongName, Labels: map[string]string{"app": "b"}, Replicas: 1},
 		{Kind: "StatefulSet", NS: "ns-2.x", Name: "1w", Labels: map[string]string{"app": "c"}, Replicas: 1},
 	}
+	// nothing may talk to anything, except that the workloads of ns1 admit any namespace: the {ingress-controller} lines are the whole report
+	var isolated []wm.NP
+	for _, ns := range []string{"ns1", "ns2", "ns3"} {
+		isolated = append(isolated, wm.NP{NS: ns, Name: "deny-all", PodSel: wm.Sel{}, Types: []string{"Ingress", "Egress"}})
+	}
+	isolated = append(isolated, wm.NP{NS: "ns1", Name: "from-any-namespace", PodSel: wm.Sel{}, Types: []string{"Ingress"}, Ingress: []wm.NPRule{{Peers: []wm.NPPeer{{NSSel: all}}}}})
 	return []*wm.World{
+		{WLs: wls, NPs: isolated, Svcs: svc, Ings: ing},
 		{WLs: odd, NPs: []wm.NP{np1}},
 		{WLs: wls},
 		{WLs: wls, NPs: []wm.NP{np1}},
@@ -66,7 +73,7 @@ func worlds() []*wm.World {
 // LongName is a 72-character workload name.
 var LongName = "a123456789-b123456789-c123456789-d123456789-e123456789-f123456789-g12345678"
 
-var focuses = []string{"payments.v2", "ns1/payments.v2", LongName, "ns1/" + LongName, "1w", "ns-2.x/1w", "w", "ns1/w", "ns2/w", "z", "ns1/z", "ns2/z", "other", "ns3/other", "nosuch", "ns1/nosuch", "ingress-controller", "ns2/ingress-controller", "w[Deployment]", "ns1/w[Deployment]", "ns1", "W"}
+var focuses = []string{"ns1-w", "ns1xw", "ns1w", "payments.v2", "ns1/payments.v2", LongName, "ns1/" + LongName, "1w", "ns-2.x/1w", "w", "ns1/w", "ns2/w", "z", "ns1/z", "ns2/z", "other", "ns3/other", "nosuch", "ns1/nosuch", "ingress-controller", "ns2/ingress-controller", "w[Deployment]", "ns1/w[Deployment]", "ns1", "W"}
 
 type Case struct {
 	WI       int
@@ -270,7 +277,7 @@ func expoLines(pl parse.List, focus string, filter bool) string {
 }
 
 func Run(r *fw.Run) {
-	r.Rule = "10 worlds (names with dots / longer than 63 characters / starting with a digit, a name shared by workloads of two namespaces and of two kinds, a workload named ingress-controller, ipBlock policies in namespaces without a matching workload, Service + Ingress, ANP) x 22 focus strings (names, namespace/names, absent names, ingress-controller, strings with [Kind], a namespace name, wrong case) x exposure on/off; the focused API relation must equal the filter of the unfocused relation (same keys incl. IP ranges, same connections) and each of the five formats must parse back to it; with exposure the exposure sections of the focused output must equal, format by format, the lines of the unfocused exposure sections whose workload matches (worlds of the exposure scopes give a focus workload several representative peers); non-trivial = the filter keeps at least one entry; distinct = distinct (world, focus) reports"
+	r.Rule = "11 worlds (one where the {ingress-controller} lines are the whole report; names with dots / longer than 63 characters / starting with a digit, a name shared by workloads of two namespaces and of two kinds, a workload named ingress-controller, ipBlock policies in namespaces without a matching workload, Service + Ingress, ANP) x 25 focus strings (among them namespace and name joined by a character other than '/') (names, namespace/names, absent names, ingress-controller, strings with [Kind], a namespace name, wrong case) x exposure on/off; the focused API relation must equal the filter of the unfocused relation (same keys incl. IP ranges, same connections) and each of the five formats must parse back to it; with exposure the exposure sections of the focused output must equal, format by format, the lines of the unfocused exposure sections whose workload matches (worlds of the exposure scopes give a focus workload several representative peers); non-trivial = the filter keeps at least one entry; distinct = distinct (world, focus) reports"
 	r.Assume = []string{"focus strings are syntactically valid workload names (name or namespace/name, both parts non-empty); the degenerate '/' is excluded (it matches every IP peer)", "uses the C09 parsers"}
 	if r.Quick() {
 		r.SetBudget(300 * time.Second)
@@ -293,20 +300,20 @@ func Run(r *fw.Run) {
 		gen    func(*fw.Ctx) *wm.World
 		stride int
 	}
-	srcs := []src{{"c10-ingress", c10.GenIngress, 900}, {"c10-route", c10.GenRoute, 1500}, {"c10-ingress+route", c10.GenBoth, 8}}
+	srcs := []src{{"c10-ingress", c10.GenIngress, 1500}, {"c10-route", c10.GenRoute, 2500}, {"c10-ingress+route", c10.GenBoth, 16}}
 	for _, sc := range c02.Scopes(true) {
 		if sc.Name == "S-stack" {
-			srcs = append(srcs, src{"c02-" + sc.Name, sc.Gen, 150})
+			srcs = append(srcs, src{"c02-" + sc.Name, sc.Gen, 300})
 		}
 	}
 	for _, sc := range c01.Scopes(true) {
 		if sc.Name == "S-sel-ip" || sc.Name == "S-rules" {
-			srcs = append(srcs, src{"c01-" + sc.Name, sc.Gen, map[string]int{"S-sel-ip": 150, "S-rules": 12}[sc.Name]})
+			srcs = append(srcs, src{"c01-" + sc.Name, sc.Gen, map[string]int{"S-sel-ip": 400, "S-rules": 30}[sc.Name]})
 		}
 	}
 	for _, sc := range expo.Scopes(true) {
 		// exposure worlds: a focus workload exposed to several representative peers at once
-		srcs = append(srcs, src{"expo-" + sc.Name, sc.Gen, map[string]int{"shared-policy": 8, "one-policy/two-rules": 60, "two-policies": 4}[sc.Name]})
+		srcs = append(srcs, src{"expo-" + sc.Name, sc.Gen, map[string]int{"shared-policy": 16, "one-policy/two-rules": 200, "two-policies": 12}[sc.Name]})
 	}
 	for _, sc := range srcs {
 		sc := sc
@@ -323,6 +330,9 @@ func Run(r *fw.Run) {
 				fs = append(fs, wl.Name, wl.NS+"/"+wl.Name)
 			}
 			fs = append(fs, "nosuch", "ingress-controller")
+			if len(n.WLs) > 0 {
+				fs = append(fs, n.WLs[0].NS+"-"+n.WLs[0].Name) // namespace and name glued by another character: names no workload
+			}
 			f := fw.Pick(c, fs, "focus workload")
 			exp := c.Choose(2, "exposure") == 1
 			if exp && (len(w.ANPs) > 0 || w.BANP != nil) {
